@@ -8,11 +8,14 @@ wt=/tmp/wt/seedrepo-$$
 mkdir -p /tmp/wt
 git -C /repo worktree add -q --detach "$wt" HEAD || exit 2
 ( cd "$wt" && git apply "$d/patch.diff" ) || { echo "== $(basename $d): patch does not apply"; git -C /repo worktree remove --force "$wt"; exit 2; }
+# a private copy of the harness files: they may be edited while this runs
+hz=/tmp/wt/seedharness-$$
+rm -rf "$hz"; cp -r "$here/harness" "$hz"
 for p in "$@"; do
-  out=$(cd "$here" && VERIF_REPO="$wt" VERIF_OUT_DIR=/tmp/wt/seedout-$$ ./check "$p" --tier ${TIER:-quick} 2>/dev/null | grep "^OK\|^VIOLATION\|^ENGINE-ERROR\|^KNOWN" | sort -r | head -3)
+  out=$(cd "$here" && VERIF_REPO="$wt" VERIF_HARNESS="$hz" VERIF_OUT_DIR=/tmp/wt/seedout-$$ ./check "$p" --tier ${TIER:-quick} 2>/dev/null | grep "^OK\|^VIOLATION\|^ENGINE-ERROR\|^KNOWN" | sort -r | head -3)
   verdict=MISSED
   echo "$out" | grep -q "^VIOLATION" && verdict=DETECTED
   echo "== $(basename $d) $p $verdict: $(echo "$out" | head -2 | cut -c1-160 | tr '\n' ' ')"
 done
 git -C /repo worktree remove --force "$wt"
-rm -rf /tmp/wt/seedout-$$
+rm -rf /tmp/wt/seedout-$$ "$hz"
